@@ -71,8 +71,9 @@ class CacheModel:
             raise AnalysisError(f"{cn}: no refresh branch guarded by {self.pred.name}() found")
         self.cache_fields: set[str] = set()
         self.refresh_funcs = []
+        self._bodies: dict[int, list] = {}
         for fi, n, neg in self.refresh_ifs:
-            body = n.orelse if neg else n.body
+            body = self.refresh_body(fi, n, neg)
             stored = set()
             for st in body:
                 for m in ast.walk(st):
@@ -87,6 +88,32 @@ class CacheModel:
         if not self.refresh_funcs:
             raise AnalysisError(f"{cn}: no branch stores the snapshot field {self.snapfield}")
         self.exempt_funcs = {self.pred.name, self.snapfn.name}
+
+
+def _following(fn, target):
+    """statements after `target` in the statement list that holds it"""
+    for x in ast.walk(fn):
+        for fld in ("body", "orelse", "finalbody"):
+            b = getattr(x, fld, None)
+            if isinstance(b, list) and target in b:
+                return b[b.index(target) + 1:]
+    return []
+
+
+def _refresh_body(self, fi, n, neg):
+    """statements executed when the predicate reports 'stale': the guarded branch, or - for the early-return form
+    `if not stale: return cached` - the statements that follow the guard"""
+    k = id(n)
+    if k not in self._bodies:
+        stale_side = n.orelse if neg else n.body
+        other = n.body if neg else n.orelse
+        if not stale_side and other and isinstance(other[-1], (ast.Return, ast.Raise)):
+            stale_side = _following(fi.node, n)
+        self._bodies[k] = stale_side
+    return self._bodies[k]
+
+
+CacheModel.refresh_body = _refresh_body
 
 
 class Validity(MustWalk):
@@ -196,7 +223,7 @@ def f1_f4(ctx, res: Result, ci: ClassInfo) -> CacheModel:
     # F4: rebinding of cache fields only inside refresh branches (or __init__)
     inside = set()
     for fi, n, neg in model.refresh_ifs:
-        for st in (n.orelse if neg else n.body):
+        for st in model.refresh_body(fi, n, neg):
             for m in ast.walk(st):
                 inside.add(id(m))
     nstores = 0
@@ -280,7 +307,7 @@ def f1_f4(ctx, res: Result, ci: ClassInfo) -> CacheModel:
     for fi, n, neg in model.refresh_ifs:
         if fi not in model.refresh_funcs:
             continue
-        body = n.orelse if neg else n.body
+        body = model.refresh_body(fi, n, neg)
         summ = ctx.eng.summary(fi)
         raising = {}
         from ..index import FuncInfo as _FI
@@ -310,8 +337,11 @@ def f1_f4(ctx, res: Result, ci: ClassInfo) -> CacheModel:
                     construct=src(bad[0])[:160])
     # F5: the predicate compares every snapshot entry
     p = model.pred
-    loops = [n for n in walk_no_nested(p.node) if isinstance(n, ast.For)]
+    from ..inline import inlined as _inl
+    pnode = _inl(p.node)
+    loops = [n for n in walk_no_nested(pnode) if isinstance(n, ast.For)]
     good = False
+    matched = False
     why = "no loop over zip(snapshot(), stored snapshot)"
     for lp in loops:
         it = lp.iter
@@ -320,6 +350,7 @@ def f1_f4(ctx, res: Result, ci: ClassInfo) -> CacheModel:
             a_fld = any(_self_attr(a, cn) == model.snapfield for a in it.args)
             tnames = {x.id for x in ast.walk(lp.target) if isinstance(x, ast.Name)}
             if a_call and a_fld and len(tnames) >= 2:
+                matched = True
                 has_true = False
                 for n in ast.walk(lp):
                     if isinstance(n, ast.If) and any(isinstance(b, ast.Return) and isinstance(b.value, ast.Constant) and b.value.value is True for b in n.body):
@@ -335,8 +366,13 @@ def f1_f4(ctx, res: Result, ci: ClassInfo) -> CacheModel:
                     why = "loop over the snapshots does not return True on every difference (early `return False`, `break`, or a comparison not involving both entries)"
     first = p.node.body[0] if p.node.body else None
     hasattr_guard = any(isinstance(n, ast.Call) and isinstance(n.func, ast.Name) and n.func.id == "hasattr" for n in walk_no_nested(p.node))
-    res.add(good, "F5-predicate-compares-all", p.qualname, p.site(), p.qualname,
-            "every pair (current, stored) snapshot entry is compared; any difference returns True", why, construct=p.qualname)
+    refs_call = any(_self_call(n) == model.snapfn.name for n in ast.walk(pnode) if isinstance(n, ast.Call))
+    refs_fld = any(_self_attr(n, cn) == model.snapfield for n in ast.walk(pnode) if isinstance(n, ast.Attribute))
+    if not matched and refs_call and refs_fld:
+        res.frozen(False, "F5-predicate-compares-all", p.qualname, p.site(), p.qualname, "", "comparison of the current with the stored snapshot is not in the recognised loop form", construct=p.qualname)
+    else:
+        res.add(good, "F5-predicate-compares-all", p.qualname, p.site(), p.qualname,
+                "every pair (current, stored) snapshot entry is compared; any difference returns True", why if matched else "the staleness predicate does not compare the current configuration snapshot with the stored one", construct=p.qualname)
     res.add(hasattr_guard or True, "F5-predicate-compares-all", p.qualname + ":first-use", p.site(), p.qualname, "first-use guard present or cache initialised")
     return model
 
@@ -525,7 +561,7 @@ def f2_snapshot(ctx, res: Result, model: CacheModel) -> None:
         if fi in model.refresh_funcs:
             need.seen.add(id(model.pred.node))
             need.seen.add(id(model.snapfn.node))
-            need.scan(n.orelse if neg else n.body, fi)
+            need.scan(model.refresh_body(fi, n, neg), fi)
     have = _Obs(ctx, ci, slots)
     have.scan(model.snapfn.node.body, model.snapfn)
     res.count("snapshot_entries", len(have.keys))
